@@ -203,8 +203,10 @@ static void handshakeJob(int bound, int payloadLen, const std::string* replay) {
 		if (vf::asan_tripped()) verdict += "ASan " + vf::asan_what() + "; ";
 	};
 	auto after = [&](const vsched::Result& x) { vf::add(C_EXEC); vf::add(C_POINTS, x.points.size()); vf::add(W_HANDSHAKE); if (x.preemptions) vf::add(W_PREEMPT); if (!verdict.empty()) vf::violation("handshake", verdict + "schedule " + x.trace(), kase + "|" + x.trace()); };
-	if (replay) { vsched::Result x = vsched::run_once(vsched::parse_schedule(*replay), body, 100000); after(x); return; }
+	vsched::set_early_timeouts(false); // a handshake that fails because a read timed out on a slow peer is not a framing error
+	if (replay) { vsched::Result x = vsched::run_once(vsched::parse_schedule(*replay), body, 100000); after(x); vsched::set_early_timeouts(true); return; }
 	vsched::explore(body, after, bound, 0, 100000);
+	vsched::set_early_timeouts(true);
 }
 // accept key on the wire: a scripted client request with a known key; the server's 101 response must carry the RFC 6455 accept value
 static void acceptKeyCase(int k, const std::string& kase) {
